@@ -114,6 +114,17 @@ func devMain() {
 			}
 			fmt.Printf("   fork site %5d %s\n", f.v, f.k)
 		}
+		fs = nil
+		for k, v := range ex.QuerySites {
+			fs = append(fs, kv{k, v})
+		}
+		sort.Slice(fs, func(i, j int) bool { return fs[i].v > fs[j].v })
+		for i, f := range fs {
+			if i >= 12 {
+				break
+			}
+			fmt.Printf("   query site %6d %s\n", f.v, f.k)
+		}
 		var fns []string
 		for f := range ex.FuncsHit {
 			fns = append(fns, f)
